@@ -7,7 +7,8 @@ DRIVER = "c06"
 PROPS_MODULE = "OxyModel.Props.C07"
 AUDIT = "OxyModel/Audit/C07.lean"
 THEOREMS = ["C07.C07_final_only", "C07.C07_implicit_200", "C07.C07_empty_body_empty", "C07.C07_once_without_predicate",
-            "C07.C07_retry_iff_predicate", "C07.C07_eval_standard", "C07.C07_at_most_11"]
+            "C07.C07_retry_iff_predicate", "C07.C07_eval_standard", "C07.C07_at_most_11",
+            "C07.C07_body_dropped_kinds", "C07.C07_panic_nothing_written"]
 RACE = False
 JOBS = 8
 RULE = ("scenario = one Buffer with a retry expression generated from the grammar (printed in Go syntax with redundant parentheses for the real parser, "
@@ -15,7 +16,9 @@ RULE = ("scenario = one Buffer with a retry expression generated from the gramma
         "non-trivial = at least one retry happened, or the final attempt had no explicit status or an empty body")
 ASSUMPTIONS = ["the response code an expression sees for an attempt that neither chose a status nor wrote is 0 (threshold.go: 'returns 0 if there was no response code'), although the client then receives 200",
                "a final response for HEAD / 1xx / 204 / 304 / 'Content-Length: 0' / non-zero Grpc-Status carries no body (expectBody)",
-               "handlers call WriteHeader at most once, before their writes, with a code in 100..599",
+               "recorded, not flagged: bufferWriter.WriteHeader overwrites the captured status whenever it is called, so a WriteHeader after the first Write (net/http would ignore it) decides the delivered status, and headers added after the first Write are delivered (script fields ls: / lh:); codes are in 100..599",
+               "recorded, not flagged (C07_body_dropped_kinds): besides HEAD/1xx/204/304 the final body is withheld for a response header 'Content-Length: 0' and for 'Grpc-Status' other than ''/'0', although net/http itself would deliver those bytes",
+               "a handler panic leaves ServeHTTP with nothing written (C07_panic_nothing_written); the client outcome is canonicalised as cl=aborted",
                "what net/http does with the ResponseWriter calls (1xx informational, implicit Content-Length) is checked by the harness (cl=ok), not modelled"]
 TRUSTED = ["vulcand/predicate parser + go/parser are inside the tie (expressions go through them), not modelled"]
 
